@@ -4,7 +4,8 @@ Layout knowledge (hard-coded here, nothing imported from dissect.hypervisor at g
   512-byte tar header: name[0:100] mode[100:108] uid[108:116] gid[116:124] size[124:136] mtime[136:148]
   chksum[148:156] typeflag[156] linkname[157:257] magic+version[257:265] uname[265:297] gname[297:329]
   devmajor[329:337] devminor[337:345] prefix[345:500] (ustar: 155 bytes).
-  visor header: magic b"visor  \\0" at 257..265, prefix only 151 bytes (345..496), then four u32 LE:
+  visor header: magic b"visor  " (7 bytes) at 257..264 -- byte 264 is NOT part of it (/bin/vmtar writes NUL there; member knob
+  "b264" puts any other byte) --, prefix only 151 bytes (345..496), then four u32 LE:
   data offset 496..500, text offset 500..504, textPgs 504..508, fixUpPgs 508..512.  A visor regular member
   has NO inline data: the next header follows immediately and the content is the `size` bytes at `offset`.
   Archive = headers (+ inline data of ustar members, 512-padded) + end-of-archive zero block(s) + data area.
@@ -75,15 +76,19 @@ def _size(rng) -> int:
                        rng.randrange(1, 600), rng.randrange(1, 5000), rng.randrange(1, 20001)])
 
 
-def gen_recipe(rng: random.Random, tier: str = "quick") -> dict:
+def gen_recipe(rng: random.Random, tier: str = "quick", **kn) -> dict:
+    """knobs (applied after the draws, so the random stream of knob-less calls is what it always was): flavor n huge gz"""
     thorough = tier != "quick"
     flavor = rng.choice(["visor"] * 5 + ["mixed"] * 3 + ["plain"] * 2)
+    flavor = kn.get("flavor", flavor)
     n = rng.choice([0, 1, 1, 2, 3, 3, 4, 5, 6, 8, 12, 20, 30, 40])
     if rng.random() < (0.06 if thorough else 0.02):
         n = 200
+    n = kn.get("n", n)
     huge = 0
     if flavor != "plain" and 1 <= n <= 40 and rng.random() < (0.08 if thorough else 0.04):
         huge = rng.choice([(1 << 31) - 4096, (1 << 31) + 12345, 3 << 30, (1 << 32) - (16 << 20)])
+    huge = kn.get("huge", huge)
     edges_ok = rng.random() < 0.10     # archive may contain the rare edge shapes (vinline / prefix151)
     members, seen = [], set()
     for i in range(n):
@@ -149,11 +154,94 @@ def gen_recipe(rng: random.Random, tier: str = "quick") -> dict:
     align = rng.choice([4096, 4096, 4096, 512, 512, 1, 1, 16])
     gapmode = rng.choice(["none", "none", "zero", "garbage", "garbage"])
     gaps = [0 if gapmode == "none" else rng.choice([0, 1, 7, 511, 512, 513, 4096, rng.randrange(5000)]) for _ in area]
-    return {"flavor": flavor, "members": members, "area": area, "gaps": gaps, "align": align, "garbage": gapmode == "garbage",
-            "gseed": rng.randrange(256), "padgarbage": rng.random() < 0.3, "eof": rng.choice([2, 2, 2, 2, 1, 3, 5, 18]),
-            "tail": rng.choice([0, 0, 0, 1, 511, 512, 1024, 4096, 9000]), "tailalign": rng.choice([1, 1, 512, 4096, 10240]),
-            "tailgarbage": rng.random() < 0.3, "huge": huge, "gz": (not huge) and rng.random() < 0.15,
-            "gzcuts": rng.choice([[], [], [0.5], [0.3, 0.6], [0.05, 0.9]])}
+    r = {"flavor": flavor, "members": members, "area": area, "gaps": gaps, "align": align, "garbage": gapmode == "garbage",
+         "gseed": rng.randrange(256), "padgarbage": rng.random() < 0.3, "eof": rng.choice([2, 2, 2, 2, 1, 3, 5, 18]),
+         "tail": rng.choice([0, 0, 0, 1, 511, 512, 1024, 4096, 9000]), "tailalign": rng.choice([1, 1, 512, 4096, 10240]),
+         "tailgarbage": rng.random() < 0.3, "huge": huge, "gz": (not huge) and rng.random() < 0.15,
+         "gzcuts": rng.choice([[], [], [0.5], [0.3, 0.6], [0.05, 0.9]])}
+    if "gz" in kn:
+        r["gz"] = bool(kn["gz"]) and not huge
+    return r
+
+
+# bytes of the magic + version field (header 257..265) that are NOT the visor magic but close to it: a member carrying one of them
+# is an ordinary tar member (inline data), whatever else the header says
+NEAR_MAGICS = [b"visor \0\0", b"visor\0\0\0", b"visor\0 \0", b"visor \0 ", b"Visor  \0", b"VISOR  \0", b"visor\t \0", b" visor \0", b"visor0 \0",
+               b"vizor  \0", b"visor_ \0", b"visor\x0000", b"ustar  \0", b"\0visor  ", b"visor \x01\0", b"visor   "[:6] + b"\0\0"]
+assert all(len(x) == 8 and x[:7] != b"visor  " for x in NEAR_MAGICS)
+B264 = [0x20, 0x30, 0x01, 0xFF, 0x0A, 0x2F]        # what can follow the 7 magic bytes instead of NUL: blank, '0' (a POSIX version digit), ...
+
+
+def directed_recipes(seed, tier: str = "quick") -> list:
+    """Directed archives, present for every seed (explicit knobs; the random generator only fills in the rest):
+      * "b264": every visor header has a non-NUL byte right behind the 7-byte magic (blank / '0' / 0x01 / 0xFF / newline / '/' /
+        a different one per member, NUL included) -- visor and mixed archives, plain and gzip-wrapped, each with a non-empty visor
+        file in the data area that is followed by further headers;
+      * "near": the standard (inline) members of a mixed archive carry magic fields that are almost, but not, the visor magic;
+      * "tar-content" / "tail-tar": what lies behind the end-of-archive marker looks like tar headers itself -- a data-area member
+        whose content is a tar archive at a block-aligned position, a second archive behind the first (concatenated archives): the
+        listing ends at the marker, the inner headers are content / trailing bytes."""
+    rng = random.Random(f"gen_vmtar/directed/{seed}/{tier}")
+    out = []
+
+    def draw(**kn):
+        for _ in range(200):
+            r = gen_recipe(rng, tier, huge=0, **kn)
+            ms = r["members"]
+            if any(m["visor"] and m["type"] == "file" and m["size"] > 0 and m["place"] == "area" for m in ms[:-1]) and \
+                    not any(m.get("edge") for m in ms) and (kn.get("flavor") != "mixed" or any(not m["visor"] and not m["long"] for m in ms)):
+                return r
+        raise AssertionError("directed_recipes: no archive with a visor data-area file followed by another header")
+    reps = 1 if tier == "quick" else 6
+    for _ in range(reps):
+        for b in B264 + ["mix", "rand"]:
+            for gz in (False, True):
+                for flavor in ("visor", "mixed"):
+                    r = draw(flavor=flavor, n=rng.choice([2, 3, 4, 6, 9, 15]), gz=gz)
+                    for m in r["members"]:
+                        if m["visor"]:
+                            m["b264"] = rng.choice([0] + B264) if b == "mix" else rng.randrange(1, 256) if b == "rand" else b
+                    r["directed"] = ["b264", b if isinstance(b, str) else "%02x" % b]
+                    out.append(r)
+        for k, gz in enumerate((False, True, False, False)):
+            r = draw(flavor="mixed", n=rng.choice([3, 5, 8, 12]), gz=gz)
+            j = 0
+            for m in r["members"]:
+                if not m["visor"] and not m["long"]:
+                    m["magic"] = "raw:" + NEAR_MAGICS[(k * 5 + j) % len(NEAR_MAGICS)].hex()
+                    j += 1
+            r["directed"] = ["near", k]
+            out.append(r)
+        # tar-like bytes behind the end-of-archive marker: a data-area member whose CONTENT is a tar archive (block-aligned, as vmtar
+        # places data; inner names equal to outer ones or new), and a second archive appended behind the first one (visor, mixed, plain)
+        k = 0
+        for flavor in ("visor", "mixed"):
+            for gz in (False, True):
+                for same in (True, False):
+                    cand = []
+                    while not cand:
+                        r = draw(flavor=flavor, n=rng.choice([2, 3, 5, 8]), gz=gz)
+                        ms = r["members"]
+                        cand = [i for i in r["area"] if ms[i]["type"] == "file" and ms[i]["size"] > 0 and not any(t.get("alias", [None])[0] == i for t in ms)]
+                    r["align"], r["eof"] = rng.choice([512, 4096]), rng.choice([1, 2, 2, 3])
+                    for i in cand[: rng.choice([1, 2])]:
+                        names = [member_name(rng.choice(ms))[:100] if same else _path(rng, rng.choice([3, 12, 40])), _path(rng, 9)][: rng.choice([1, 2])]
+                        ms[i]["tar"] = [[nm, rng.choice([0, 1, 511, 512, 700]), rng.randrange(256)] for nm in names]
+                        ms[i]["size"] = len(inner_tar(ms[i]["tar"]))
+                    r["directed"] = ["tar-content", k]
+                    k += 1
+                    out.append(r)
+        for flavor, gz in (("plain", False), ("plain", True), ("plain", False), ("visor", False), ("mixed", True)):
+            for _ in range(200):
+                r = gen_recipe(rng, tier, huge=0, flavor=flavor, n=rng.choice([1, 2, 4, 7]), gz=gz)
+                if not any(m.get("edge") for m in r["members"]) and any(m["type"] == "file" and m["size"] > 0 for m in r["members"]):
+                    break
+            r["eof"] = rng.choice([1, 2, 2, 3])
+            r["tailtar"] = [[member_name(rng.choice(r["members"]))[:100] if j == 0 and rng.random() < 0.5 else _path(rng, rng.choice([4, 20])), rng.choice([0, 5, 512, 900]),
+                             rng.randrange(256)] for j in range(rng.choice([1, 2, 3]))]
+            r["directed"] = ["tail-tar", flavor]
+            out.append(r)
+    return out
 
 
 # --------------------------------------------------------------------------- writer
@@ -181,7 +269,11 @@ def _header(name: bytes, m: dict, size: int, tf: bytes, link: bytes = b"", prefi
     h[136:148] = _num(m["mtime"], 12, m["nst"] % 3, gnu)
     h[156:157] = tf
     h[157:157 + len(link)] = link
-    h[257:265] = {"ustar": b"ustar\x0000", "gnu": b"ustar  \0", "v7": bytes(8), "visor": b"visor  \0"}[m["magic"]]
+    if m["magic"].startswith("raw:"):                        # an arbitrary magic + version field (standard members only)
+        assert not visor and len(bytes.fromhex(m["magic"][4:])) == 8 and bytes.fromhex(m["magic"][4:])[:7] != b"visor  "
+        h[257:265] = bytes.fromhex(m["magic"][4:])
+    else:
+        h[257:265] = {"ustar": b"ustar\x0000", "gnu": b"ustar  \0", "v7": bytes(8), "visor": b"visor  " + bytes([m.get("b264", 0)])}[m["magic"]]
     un, gn = m["uname"].encode()[:32], m["gname"].encode()[:32]
     h[265:265 + len(un)] = un
     h[297:297 + len(gn)] = gn
@@ -195,6 +287,23 @@ def _header(name: bytes, m: dict, size: int, tf: bytes, link: bytes = b"", prefi
     s = sum(h)
     h[148:156] = [b"%06o\0 " % s, b"%07o\0" % s, b"%06o  " % s][m["cst"]]
     return bytes(h)
+
+
+def inner_tar(items) -> bytes:
+    """a complete little ustar archive, [[name, size, seed], ...] -> header + data blocks ... + two zero blocks: used as member CONTENT
+    (member knob "tar") and as trailing bytes behind the outer archive (recipe knob "tailtar"); for the outer archive it is just bytes"""
+    out = bytearray()
+    for name, size, seed in items:
+        im = {"magic": "ustar", "mode": 0o644, "uid": 0, "gid": 0, "mtime": 1700000000 + seed, "uname": "root", "gname": "root", "nst": 0, "cst": 0, "dev": False}
+        out += _header(name.encode()[:100], im, size, b"0") + pat_bytes(seed, 0, size) + bytes(-size % BS)
+    return bytes(out) + bytes(2 * BS)
+
+
+def _put_content(im: Image, pos: int, m: dict):
+    if m.get("tar"):
+        im.put_hex(pos, inner_tar(m["tar"]))
+    else:
+        im.put_pat(pos, m["size"], m["seed"])
 
 
 def member_name(m: dict) -> str:
@@ -220,7 +329,7 @@ def build(recipe: dict) -> dict:
         pos += BS
         if m["place"] == "inline":
             inl[i] = pos
-            im.put_pat(pos, m["size"], m["seed"])
+            _put_content(im, pos, m)
             if recipe["padgarbage"]:
                 im.put_pat(pos + m["size"], _blk(m["size"]) - m["size"], m["seed"] + 101)
             pos += _blk(m["size"])
@@ -236,8 +345,13 @@ def build(recipe: dict) -> dict:
         if recipe["garbage"] and start >= zero_end and pos - start < (1 << 20):
             im.put_pat(start, pos - start, recipe["gseed"] + k)
         aoff[i] = pos
-        im.put_pat(pos, ms[i]["size"], ms[i]["seed"])
+        _put_content(im, pos, ms[i])
         pos += ms[i]["size"]
+    if recipe.get("tailtar"):                                   # bytes behind the archive that happen to be a tar archive themselves
+        pos = _blk(pos)
+        blob = inner_tar(recipe["tailtar"])
+        im.put_hex(pos, blob)
+        pos += len(blob)
     end = (pos + recipe["tail"] + recipe["tailalign"] - 1) // recipe["tailalign"] * recipe["tailalign"]
     if recipe["tailgarbage"]:                                   # trailing bytes after the marker / data area are never parsed
         im.put_pat(pos, end - pos, recipe["gseed"] + 77)
@@ -256,6 +370,9 @@ def build(recipe: dict) -> dict:
         if m["type"] == "file":
             src = ms[m["alias"][0]] if m["place"] == "alias" else m
             content = pat_bytes(src["seed"], data_at, size) if size else b""
+            if src.get("tar"):                                  # content written as explicit bytes (an archive inside the archive)
+                d = m["alias"][1] if m["place"] == "alias" else 0
+                content = inner_tar(src["tar"])[d: d + size]
         assert 0 <= vis_off < (1 << 32) and (vis_off != 0) == (m["place"] in ("area", "alias"))
         pgs = m.get("pgs", [0, 0, 0])
         full = member_name(m).encode()
